@@ -403,3 +403,203 @@ theorem invCore_processMode {target : Str} {modes : List (Str × List Str)} (h :
     · split <;> exact invCore_of_w_eq h rfl
 
 end Irc
+
+/-! ### the hypotheses are satisfiable, the conclusions are not trivial -/
+
+namespace Irc.Modes.Ex
+open Irc Irc.Modes
+
+def mkUser (owner : Nat) (chs : KSet) : User :=
+  { hostname := [], name := [], realname := [], source := [], modes := {}, history := ⟨[], [], []⟩,
+    owner := owner, channels := chs }
+def mkConn (id : Nat) (nick : Str) : Conn :=
+  { id := id, hostname := [], nick := some nick, source := nick, authenticated := true,
+    registered := true, hasSender := false, hasQuitSender := false, hasPingSender := false }
+
+def na : Str := ['a']
+def nb : Str := ['b']
+def hc : Str := ['#', 'c']
+def chanC : Channel :=
+  { users := [(na, { founder := true, operator := true })],
+    modes := { founders := [na], operators := [na] } }
+
+/-- users `a` (connection 1, founder and operator of `#c`) and `b` (connection 2) -/
+def w0 : World :=
+  { users := [(na, mkUser 1 [hc]), (nb, mkUser 2 [])], conns := [mkConn 1 na, mkConn 2 nb],
+    channels := [(hc, chanC)], connsCount := 2, maxUsers := 2 }
+
+theorem w0_users {n : Str} {u : User} (h : Map.lookup n w0.users = some u) :
+    (n = na ∧ u = mkUser 1 [hc]) ∨ (n = nb ∧ u = mkUser 2 []) := by
+  simp only [w0, Map.lookup] at h
+  split at h
+  · rename_i e; cases h; exact Or.inl ⟨e.symm, rfl⟩
+  · split at h
+    · rename_i e; cases h; exact Or.inr ⟨e.symm, rfl⟩
+    · cases h
+
+theorem w0_chans {ch : Str} {C : Channel} (h : Map.lookup ch w0.channels = some C) :
+    ch = hc ∧ C = chanC := by
+  simp only [w0, Map.lookup] at h
+  split at h
+  · rename_i e; cases h; exact ⟨e.symm, rfl⟩
+  · cases h
+
+theorem chanC_members {n : Str} {m : ChanUserModes} (h : Map.lookup n chanC.users = some m) :
+    n = na ∧ m = { founder := true, operator := true } := by
+  simp only [chanC, Map.lookup] at h
+  split at h
+  · rename_i e; cases h; exact ⟨e.symm, rfl⟩
+  · cases h
+
+theorem w0_conns {cn : Conn} (h : cn ∈ w0.conns) : cn = mkConn 1 na ∨ cn = mkConn 2 nb := by
+  simpa [w0] using h
+
+theorem mem_singleton (n k : Str) : KSet.mem n [k] = true ↔ n = k := by
+  simp only [KSet.mem, List.any_cons, List.any_nil, Bool.or_false, beq_iff_eq]; exact eq_comm
+
+theorem rankMirror_chanC : RankMirror chanC where
+  founders := fun n => by
+    show KSet.mem n [na] = true ↔ _
+    rw [mem_singleton]
+    constructor
+    · rintro rfl; exact ⟨_, rfl, rfl⟩
+    · rintro ⟨m, h, _⟩; exact (chanC_members h).1
+  operators := fun n => by
+    show KSet.mem n [na] = true ↔ _
+    rw [mem_singleton]
+    constructor
+    · rintro rfl; exact ⟨_, rfl, rfl⟩
+    · rintro ⟨m, h, _⟩; exact (chanC_members h).1
+  protecteds := fun n => by
+    constructor
+    · intro h; cases h
+    · rintro ⟨m, h, hf⟩; obtain ⟨_, rfl⟩ := chanC_members h; cases hf
+  halfOperators := fun n => by
+    constructor
+    · intro h; cases h
+    · rintro ⟨m, h, hf⟩; obtain ⟨_, rfl⟩ := chanC_members h; cases hf
+  voices := fun n => by
+    constructor
+    · intro h; cases h
+    · rintro ⟨m, h, hf⟩; obtain ⟨_, rfl⟩ := chanC_members h; cases hf
+
+theorem invCore_w0 : InvCore w0 where
+  noPanic := rfl
+  usersNodup := by decide
+  chansNodup := by decide
+  connsNodup := by decide
+  membersNodup := fun ch C h => by obtain ⟨_, rfl⟩ := w0_chans h; decide
+  userChansNodup := fun n u h => by
+    rcases w0_users h with ⟨_, rfl⟩ | ⟨_, rfl⟩ <;> decide
+  authOwns := fun cn hcn _ => by
+    rcases w0_conns hcn with rfl | rfl
+    · exact ⟨na, _, rfl, rfl, rfl⟩
+    · exact ⟨nb, _, rfl, rfl, rfl⟩
+  userOwned := fun n u h => by
+    rcases w0_users h with ⟨rfl, rfl⟩ | ⟨rfl, rfl⟩
+    · exact ⟨mkConn 1 na, by simp [w0], rfl, rfl, rfl⟩
+    · exact ⟨mkConn 2 nb, by simp [w0], rfl, rfl, rfl⟩
+  memberSym := fun n u ch h => by
+    rcases w0_users h with ⟨rfl, rfl⟩ | ⟨rfl, rfl⟩
+    · show KSet.mem ch [hc] = true ↔ _
+      rw [mem_singleton]
+      constructor
+      · rintro rfl; exact ⟨chanC, rfl, rfl⟩
+      · rintro ⟨C, h, _⟩; exact (w0_chans h).1
+    · constructor
+      · intro h; cases h
+      · rintro ⟨C, h, hm⟩; obtain ⟨_, rfl⟩ := w0_chans h; cases hm
+  memberIsUser := fun ch C n h hm => by
+    obtain ⟨_, rfl⟩ := w0_chans h
+    obtain ⟨m, hm⟩ := (Map.contains_iff _ _).mp hm
+    obtain ⟨rfl, _⟩ := chanC_members hm
+    rfl
+  rankMirror := fun ch C h => by obtain ⟨_, rfl⟩ := w0_chans h; exact rankMirror_chanC
+  noEmptyAdHoc := fun ch C h he => by obtain ⟨_, rfl⟩ := w0_chans h; cases he
+  invisibleCount := rfl
+  operatorsCount := rfl
+  wallopsSet := fun n => by
+    constructor
+    · intro h; cases h
+    · rintro ⟨u, h, hw⟩
+      rcases w0_users h with ⟨rfl, rfl⟩ | ⟨rfl, rfl⟩ <;> cases hw
+  maxUsers := by decide
+  resources := fun cn hcn hf => by
+    rcases w0_conns hcn with rfl | rfl <;> cases hf
+  slots := rfl
+  killedFlagged := fun n u h hk => by
+    rcases w0_users h with ⟨rfl, rfl⟩ | ⟨rfl, rfl⟩ <;> cases hk
+
+theorem live_1 : Live w0 1 := ⟨mkConn 1 na, by simp [w0], rfl⟩
+
+def cfgE : Cfg := { operators := [{ name := na, password := ['p'], mask := none }] }
+def ctx (w : World) : Ctx := ⟨w, [], []⟩
+def msg0 : Message := ⟨none, [], []⟩
+
+-- AWAY: hypotheses satisfiable, the away text is really stored
+example : InvCore (processAway cfgE 1 (some ['x']) (ctx w0)).w :=
+  (invCore_processAway (x := ctx w0) invCore_w0 live_1 (by decide)).1
+example : (Map.lookup na (processAway cfgE 1 (some ['x']) (ctx w0)).w.users).map (·.away)
+    = some (some ['x']) := by decide
+
+-- INVITE: `a` invites `b` to `#c`
+example : InvCore (processInvite cfgE 1 nb hc msg0 (ctx w0)).w :=
+  (invCore_processInvite (x := ctx w0) invCore_w0 live_1 (by decide)).1
+example : (Map.lookup nb (processInvite cfgE 1 nb hc msg0 (ctx w0)).w.users).map (·.invitedTo)
+    = some [hc] := by decide
+
+-- TOPIC
+example : InvCore (processTopic cfgE 1 hc (some ['t']) msg0 (ctx w0)).w :=
+  (invCore_processTopic (x := ctx w0) invCore_w0 live_1 (by decide)).1
+example : (Map.lookup hc (processTopic cfgE 1 hc (some ['t']) msg0 (ctx w0)).w.channels).map (·.topic)
+    = some (some ⟨['t'], na⟩) := by decide
+
+-- OPER: `a` becomes operator, the counter moves from 0 to 1
+def w1 : World := (processOper cfgE 1 na ['p'] (ctx w0)).w
+theorem inv_w1 : InvCore w1 ∧ SameConnIds w0 w1 :=
+  invCore_processOper (x := ctx w0) invCore_w0 live_1 (by decide)
+theorem live_w1 : Live w1 1 := Live.of_same inv_w1.2 live_1
+example : w0.operatorsCount = 0 ∧ w1.operatorsCount = 1 ∧
+    (Map.lookup na w1.users).map (·.modes.oper) = some true := by decide
+
+-- MODE (user): `MODE a +iw-o` on the operator `a`
+def umodes : List (Str × List Str) := [(['+', 'i', 'w', '-', 'o'], [])]
+example : InvCore (processMode cfgE 1 na umodes (ctx w1)).w :=
+  (invCore_processMode (x := ctx w1) inv_w1.1 live_w1 (by decide) (by decide)).1
+example : (processMode cfgE 1 na umodes (ctx w1)).w.invisibleCount = 1 ∧
+    (processMode cfgE 1 na umodes (ctx w1)).w.operatorsCount = 0 ∧
+    (processMode cfgE 1 na umodes (ctx w1)).w.wallops = [na] ∧
+    (Map.lookup na (processMode cfgE 1 na umodes (ctx w1)).w.users).map (·.modes)
+      = some { invisible := true, wallops := true } := by decide
+
+-- MODE (channel): `MODE #c +tlvb 5 a x` by the founder `a`
+def cmodes : List (Str × List Str) := [(['+', 't', 'l', 'v', 'b'], [['5'], na, ['x']])]
+example : Command.validate (.MODE hc cmodes) = .ok () := by decide
+example : InvCore (processMode cfgE 1 hc cmodes (ctx w0)).w :=
+  (invCore_processMode (x := ctx w0) invCore_w0 live_1 (by decide) (by decide)).1
+example : (Map.lookup hc (processMode cfgE 1 hc cmodes (ctx w0)).w.channels).map
+      (fun C => (C.modes.protectedTopic, C.modes.clientLimit, C.modes.voices, C.modes.ban.length,
+        (Map.lookup na C.users).map (·.voice)))
+    = some (true, some 5, [na], 1, some true) := by decide
+-- without the validation hypothesis the statement is false: `MODE #c +o` (no argument) panics
+example : (processMode cfgE 1 hc [(['+', 'o'], [])] (ctx w0)).w.panicked.isSome = true := by decide
+example : Command.validate (.MODE hc [(['+', 'o'], [])]) ≠ .ok () := by decide
+
+-- KILL: the operator `a` kills `b`
+example : InvCore (processKill cfgE 1 nb ['x'] (ctx w1)).w :=
+  (invCore_processKill (x := ctx w1) inv_w1.1 live_w1 (by decide)).1
+example : (Map.lookup nb (processKill cfgE 1 nb ['x'] (ctx w1)).w.users).map (·.killed) = some true ∧
+    ((processKill cfgE 1 nb ['x'] (ctx w1)).w.conn? 2).map (·.killedBy) = some (some (na, ['x'])) := by
+  decide
+
+-- DIE / SQUIT: every user is killed, the server quits
+example : InvCore (processDie cfgE 1 none (ctx w1)).w :=
+  (invCore_processDie (x := ctx w1) inv_w1.1 live_w1 (by decide)).1
+example : (processDie cfgE 1 none (ctx w1)).w.srvQuit = true ∧
+    (processDie cfgE 1 none (ctx w1)).w.users.all (·.2.killed) = true ∧
+    (processDie cfgE 1 none (ctx w1)).w.conns.all (·.killedBy.isSome) = true := by decide
+example : InvCore (processSquit cfgE 1 cfgE.name ['x'] (ctx w1)).w :=
+  (invCore_processSquit (x := ctx w1) inv_w1.1 live_w1 (by decide)).1
+example : (processSquit cfgE 1 cfgE.name ['x'] (ctx w1)).w.srvQuit = true := by decide
+
+end Irc.Modes.Ex
